@@ -15,6 +15,7 @@ FLAVORS = {
     'dtostre': ['-DUSE_CUSTOM_DTOSTRE=1'],
     'uchar': ['-funsigned-char'],          # plain char unsigned, as on ARM and PowerPC targets
     'strict': ['-std=c99', '-DVERIF_STRICT'],   # strict ISO C: the library uses its own strncasecmp / strnlen / strndup
+    'prec99': ['-U__STDC_VERSION__', '-DVERIF_STRICT'],   # a compiler that does not announce C99: no <stdbool.h>, scpi_bool_t is unsigned char
 }
 CFLAGS = ['-O1', '-g', '-fsanitize=address,undefined', '-fno-sanitize-recover=all', '-fno-omit-frame-pointer',
           '-DSCPI_PARSER_VERIF', '-w']
@@ -233,7 +234,7 @@ def ensure_impl(flavor):
     for old in glob.glob(os.path.join(BUILD, 'impl_%s_*' % flavor)):
         os.remove(old)
     cmd = ['gcc'] + CFLAGS + FLAVORS[flavor] + ['-I', os.path.join(REPO, 'libscpi/inc'), '-I', os.path.join(REPO, 'libscpi/src'), src, '-lm', '-o', exe]
-    if flavor in ('default', 'dtostre', 'uchar', 'strict'):
+    if flavor in ('default', 'dtostre', 'uchar', 'strict', 'prec99'):
         cmd.insert(-4, '-Wl,--wrap=strndup')
     rc, out, err, _ = sh(cmd, 300)
     if rc != 0:
